@@ -45,6 +45,19 @@ class TextConverter:
         #   \{[^}]*\}  - Opening brace, any content except }, closing brace
         # )?           - Make the brace group optional
         pattern = r"\\[a-zA-Z]+(?:\{[^}]*\})?"
+        # A few supported commands are not of that shape (\|, \:, \sqrt[3], ...):
+        # match them literally first, longest first, so they stay reachable.
+        special = sorted(
+            (
+                command
+                for command in self.symbol_mapper.latex_to_char
+                if not re.fullmatch(pattern, command)
+            ),
+            key=len,
+            reverse=True,
+        )
+        if special:
+            pattern = "|".join(re.escape(c) for c in special) + "|" + pattern
         return re.compile(pattern)
 
     def convert_latex_to_unicode(self, text: str) -> str:
